@@ -98,13 +98,14 @@ pub trait StateApi: Sized {
     fn destroy(self);
 }
 
-pub struct BState<M: RawMutex + 'static>(&'static GenericStateBroadcastChannel<M, Val>);
+pub struct BState<M: RawMutex + 'static>(crate::util::Leaked<GenericStateBroadcastChannel<M, Val>>);
 
 impl<M: RawMutex + 'static> StateApi for BState<M> {
     type Fut = StateReceiveFuture<'static, M, Val>;
     const SHARED: bool = false;
     fn new() -> Self {
-        BState(Box::leak(Box::new(GenericStateBroadcastChannel::new())))
+        let owner = crate::util::Leaked::new(GenericStateBroadcastChannel::new());
+        BState(owner)
     }
     fn n_tx(&self) -> usize {
         1
@@ -113,23 +114,23 @@ impl<M: RawMutex + 'static> StateApi for BState<M> {
         1
     }
     fn send(&self, v: Val) -> Result<(), ChannelSendError<Val>> {
-        self.0.send(v)
+        self.0.get().send(v)
     }
     fn close(&self) -> CloseStatus {
-        self.0.close()
+        self.0.get().close()
     }
     fn receive(&self, id: StateId) -> Self::Fut {
-        self.0.receive(id)
+        self.0.get().receive(id)
     }
     fn try_receive(&self, id: StateId) -> Option<(StateId, Val)> {
-        self.0.try_receive(id)
+        self.0.get().try_receive(id)
     }
     fn inspect(&self, v: &mut dyn FnMut(Visit) -> bool) {
-        self.0.verif_inspect(v)
+        self.0.get().verif_inspect(v)
     }
     fn destroy(self) {
         // Safety: all futures have been dropped
-        unsafe { drop(Box::from_raw(self.0 as *const _ as *mut GenericStateBroadcastChannel<M, Val>)) }
+        unsafe { self.0.reclaim() }
     }
 }
 
@@ -363,7 +364,7 @@ impl<A: StateApi> StateInner<A> {
                 }
             }
         }
-        let max_sends = if self.bounded { 3 } else { 4000 };
+        let max_sends = if self.bounded { 3 } else if cfg!(miri) { 300 } else { 4000 };
         if self.api.n_tx() > 0 && ((self.next_tag - self.base) as usize) < max_sends {
             out.push(Ev::new(SEND, 0, 0));
         }
@@ -526,7 +527,7 @@ impl<A: StateApi> StateInner<A> {
         self.post(ctx);
         if self.holders() > 0 {
             let empty = self.view.queues[0].is_empty() && self.view.prim.head == 0 && self.view.prim.tail == 0;
-            ctx.check("C01", "queue-empty-after-all-futures-dropped", true, empty, || "wait queue not empty at the end of the history".into());
+            ctx.check("C01", "queue-empty-after-all-futures-dropped", crate::slots::inspect_on(), empty, || "wait queue not empty at the end of the history".into());
         }
         self.held.clear();
         let (base, n) = (self.base, self.next_tag);
